@@ -7,8 +7,9 @@ func init() {
 		c02elem, c02ptype, c02escape, c02intarg, c02recguard, c02ovf, func(c *core.Ctx) { c16renderAs(c, "C02.stdpanic") }, c02deleg("C02.deleg", []string{"notations/jschema/scanner", "rules/enum", "formats/json"}, 130))
 }
 
-func c02elem(c *core.Ctx) {
-	const R = "C02.elem"
+func c02elem(c *core.Ctx) { c02elemAs(c, "C02.elem") }
+
+func c02elemAs(c *core.Ctx, R string) {
 	c.Rule(R, "every first/last-element access, constant-bound slice and scanner lookahead is dominated by a guard implying it is in bounds, or is tabled with the invariant that makes it safe")
 	for _, s := range elemSites(c) {
 		pos := c.P.Pos(s.node.Pos())
